@@ -35,9 +35,9 @@ ASSUMPTIONS = [
     "points) and a fresh TinyFlux(path) opens it with the same contents",
     "finite selectors: exhaustion == enumeration of boundaries",
 ]
-BOUNDS = {"boundaries": "<= 40 per operation"}
+BOUNDS = {"boundaries": "<= 64 per operation (an operation that reaches the last one is reported inconclusive, not passed)"}
 T0 = 1_600_000_000_000_000
-KMAX = 40
+KMAX = 64
 
 
 def base_points():
@@ -57,11 +57,15 @@ def to_point(mp):
 OPS = (
     "insert", "insert_multiple", "update", "remove", "drop_measurement", "remove_all", "handle_remove_all", "update_all", "remove_everything",
     "insert_out_of_order", "insert_compact", "handle_insert", "insert_multiple3", "update_callable", "update_time", "remove_filtered", "handle_update", "update_unset",
+    "remove_suffix", "remove_prefix", "remove_suffix2", "update_last", "update_first", "handle_remove_suffix",
 )
 
 
+W_OPS = ("insert", "update", "remove", "drop_measurement", "remove_prefix", "remove_suffix", "update_time", "handle_update", "remove_all")
+
+
 def run_op(db, op):
-    from tinyflux import TagQuery
+    from tinyflux import TagQuery, TimeQuery
 
     qa = TagQuery().k == "a"
     new1 = MP(T0 + 2_000_000, "m", {"k": "c"}, {"f": 7})
@@ -90,6 +94,18 @@ def run_op(db, op):
         db.measurement("m").update(qa, fields={"f": 9}, tags={"z": "1"})
     elif op == "update_unset":
         db.update(qa, unset_tags=["j", "k"], unset_fields="f")
+    elif op == "remove_suffix":  # only the last stored row goes: no kept row changes position
+        db.remove(TimeQuery() >= mk_time(T0 + 1_000_000))
+    elif op == "remove_suffix2":
+        db.remove(TimeQuery() > mk_time(T0))
+    elif op == "remove_prefix":  # only the first stored row goes: every kept row moves
+        db.remove(TimeQuery() < mk_time(T0 + 500_000))
+    elif op == "handle_remove_suffix":
+        db.measurement("m").remove(TimeQuery() > mk_time(T0))
+    elif op == "update_last":
+        db.update(TimeQuery() >= mk_time(T0 + 1_000_000), fields={"f": 9})
+    elif op == "update_first":
+        db.update(TimeQuery() <= mk_time(T0), fields={"f": 9})
     elif op == "update_all":
         db.update_all(measurement="q")
     elif op == "remove":
@@ -145,6 +161,16 @@ def outcomes(op):
         return [old, [p for p in old if p.m != "n"]]
     if op == "handle_remove_all":
         return [old, [p for p in old if p.m != "m"]]
+    if op in ("remove_suffix", "handle_remove_suffix"):
+        return [old, old[:2]]
+    if op == "remove_suffix2":
+        return [old, old[:1]]
+    if op == "remove_prefix":
+        return [old, old[1:]]
+    if op == "update_last":
+        return [old, old[:2] + [make_change(fields={"f": 9})(old[2].copy())]]
+    if op == "update_first":
+        return [old, [make_change(fields={"f": 9})(old[0].copy())] + old[1:]]
     return [old, []]
 
 
@@ -185,6 +211,7 @@ def h_crash(params):
         files.CTL.watch = [h.path]
         files.CTL.reset(mode=mode, at=k, after=after)
         files.CTL.handles = []
+        files.CTL.read_boundaries = mode == "oserror"
         files.CTL.active = True
         crashed = err = None
         try:
@@ -201,8 +228,12 @@ def h_crash(params):
         log = list(files.CTL.log)
         if fired is None:
             raise lpe.Infeasible()  # the operation makes fewer than k+1 I/O calls (or no 'after' point here)
+        if fired[0] >= KMAX - 1:
+            raise lpe.Inconclusive(f"{op} makes more than {KMAX} I/O calls: boundaries beyond are not covered")
         lpe.note("boundary", fired)
         lpe.note("io_calls_before_fault", log)
+        if mode == "oserror" and fired[2] == "after" and not any(w in fired[1] for w in (".flush", "fsync", ".close", ".write", "truncate")):
+            raise lpe.Infeasible()  # "after it took effect" only for write/flush/fsync/truncate/close
         oks = outcomes(op)
         where = f"{op}: {mode} {fired[2]} boundary {fired[0]} ({fired[1]})"
         if mode == "crash":
@@ -213,7 +244,10 @@ def h_crash(params):
         if params.get("twin"):
             fail("reachability twin")
 
-    run_path({"storage": "csv", "auto_index": params.get("ai", True), "io_proxy": True, "stub": False}, body)
+    cfg = {"storage": "csv", "auto_index": params.get("ai", True), "io_proxy": True, "stub": False}
+    if params.get("access_mode"):
+        cfg["csv_kwargs"] = {"access_mode": params["access_mode"]}
+    run_path(cfg, body)
 
 
 def _check_disk(h, oks, where):
@@ -249,21 +283,40 @@ def _after_oserror(h, oks, where, params):
     require(any(same(pts, o) for o in oks), lambda: f"{where}: the file holds {show(pts)}: neither old nor new contents")
     # the live object: every answer equals what its own storage holds at that moment, or is an exception
     def consistent(stage):
+        # what the object's storage holds: read through the object if that works, otherwise (handle
+        # closed by the failed operation) the file at its path
         try:
             stored = list(iter(db))
+            src = "the object's own storage"
         except Exception:
-            return  # fails loudly: acceptable
-        try:
-            n = db.count(TagQuery().k.exists())
-            ln = len(db)
-            al = db.all(sorted=False)
-            ts = db.get_timestamps()
-        except Exception:
-            return
+            stored, _why = files.decode_file(h.path)
+            src = "the file at the object's path (its handle no longer reads)"
+            if stored is None:
+                return
         exp = sum(1 for p in stored if "k" in p.tags)
-        require(n == exp, lambda: f"{where}: {stage}: count() = {n} but the object's own storage holds {exp} matching rows ({show(stored)})")
-        require(ln == len(stored), lambda: f"{where}: {stage}: len() = {ln} but storage holds {len(stored)} rows")
-        require(len(al) == len(stored) and len(ts) == len(stored), lambda: f"{where}: {stage}: all()/get_timestamps() disagree with storage")
+
+        def answer(fn):
+            try:
+                return (fn(),)
+            except Exception:
+                return None  # fails loudly: acceptable
+
+        r = answer(lambda: db.count(TagQuery().k.exists()))
+        if r is not None:
+            require(r[0] == exp, lambda: f"{where}: {stage}: count() = {r[0]} but {src} holds {exp} matching rows ({show(stored)})")
+        r2 = answer(lambda: len(db))
+        if r2 is not None:
+            require(r2[0] == len(stored), lambda: f"{where}: {stage}: len() = {r2[0]} but {src} holds {len(stored)} rows")
+        r3 = answer(lambda: len(db.all(sorted=False)))
+        if r3 is not None:
+            require(r3[0] == len(stored), lambda: f"{where}: {stage}: all() returns {r3[0]} points but {src} holds {len(stored)} rows")
+        r4 = answer(lambda: len(db.get_timestamps()))
+        if r4 is not None:
+            require(r4[0] == len(stored), lambda: f"{where}: {stage}: get_timestamps() returns {r4[0]} values but {src} holds {len(stored)} rows")
+        r5 = answer(lambda: sorted(db.get_measurements()))
+        if r5 is not None:
+            want = sorted({p.measurement for p in stored})
+            require(r5[0] == want, lambda: f"{where}: {stage}: get_measurements() = {r5[0]} but {src} holds {want}")
 
     consistent("right after the error")
     nxt = params.get("next", "insert")
@@ -308,5 +361,9 @@ def obligations(tier):
             for pre in (False, True):
                 for rew in (False, True):
                     obs.append({"id": f"crash/{op}/{'ai' if ai else 'noai'}{'/after-read' if pre else ''}{'/after-rewrite' if rew else ''}", "harness": "h_crash", "params": {"op": op, "ai": ai, "pre_read": pre, "pre_rewrite": rew}, "budget_s": 120})
+    # a database created with access_mode='w+' (truncating open): rewrites reopen the primary
+    for op in W_OPS:
+        for ai in (True, False):
+            obs.append({"id": f"crash/{op}/{'ai' if ai else 'noai'}/mode-w+", "harness": "h_crash", "params": {"op": op, "ai": ai, "access_mode": "w+"}, "budget_s": 120})
     obs.append({"id": "twin/crash", "harness": "h_crash", "params": {"op": "update", "ai": True, "twin": True}, "budget_s": 60})
     return obs
